@@ -142,6 +142,24 @@ func TestReplay(t *testing.T) {
 		fmt.Println("REPLAY-OK")
 		return
 	}
+	if rf.Property == "C05" && rf.Part == "foreign" {
+		var fsc Foreign
+		fmsg := ""
+		if err := json.Unmarshal(rf.Scenario, &fsc); err != nil || fsc.Targets < 1 {
+			fmsg = fmt.Sprintf("bad scenario: %v", err)
+		} else if _, err := runForeign(t, &fsc); err != nil {
+			fmsg = err.Error()
+		}
+		if fmsg != "" {
+			rec.AddViolation(json.RawMessage(rf.Scenario), rf.Kind, rf.Class, "%s", fmsg)
+			fmt.Println("REPLAY-FAIL:", fmsg)
+			t.Fail()
+			return
+		}
+		rec.Case(json.RawMessage(rf.Scenario), false, "replayed")
+		fmt.Println("REPLAY-OK")
+		return
+	}
 	if rf.Property == "C05" && rf.Part == "stress" {
 		var osc OnceStress
 		omsg := ""
